@@ -522,6 +522,50 @@ def run_history(w, hist, v=None):
         yield t, st, cur, out, cur_w
 
 
+
+# ------------------------------------------------------------------------------------------------
+# parameter containers of different types / dtypes (values exactly representable in every one of them)
+CONTAINER_KINDS = ["list_int", "tuple_int", "tuple_float", "int64", "int32", "float32", "float16", "longdouble", "object",
+                   "mixed", "np_float_scalars", "np_int_scalars", "list_float"]
+HALF_KINDS = {"tuple_float", "float32", "float16", "longdouble", "object", "mixed", "np_float_scalars", "list_float"}
+
+
+def make_container(kind, vals):
+    """the vector `vals` (integers, or multiples of 1/2 for the kinds in HALF_KINDS) as a container of the given kind"""
+    if kind == "list_int":
+        return [int(a) for a in vals]
+    if kind == "tuple_int":
+        return tuple(int(a) for a in vals)
+    if kind == "tuple_float":
+        return tuple(float(a) for a in vals)
+    if kind == "list_float":
+        return [float(a) for a in vals]
+    if kind == "int64":
+        return np.array([int(a) for a in vals], dtype=np.int64)
+    if kind == "int32":
+        return np.array([int(a) for a in vals], dtype=np.int32)
+    if kind in ("float32", "float16", "longdouble"):
+        return np.array(vals, dtype={"float32": np.float32, "float16": np.float16, "longdouble": np.longdouble}[kind])
+    if kind == "object":
+        return np.array([int(a) if float(a).is_integer() else float(a) for a in vals], dtype=object)
+    if kind == "mixed":
+        return [int(a) if (i % 2 == 0 and float(a).is_integer()) else float(a) for i, a in enumerate(vals)]
+    if kind == "np_float_scalars":
+        return [np.float64(a) for a in vals]
+    if kind == "np_int_scalars":
+        return [np.int64(int(a)) for a in vals]
+    raise ValueError("unknown container kind " + kind)
+
+
+def container_values(rng, kind, nfree, pattern):
+    if pattern == "ones":
+        return [1] * nfree
+    if pattern == "arange":
+        return list(range(nfree))
+    if kind in HALF_KINDS and pattern == "halves":
+        return [rng.randint(-8, 8) / 2 for _ in range(nfree)]
+    return [rng.randint(-4, 4) for _ in range(nfree)]
+
 class Word:
     """element of the free monoid; the Qobj identity that starts both lists acts as the empty word"""
 
@@ -638,7 +682,8 @@ class C19(PropertyCheck):
             "stream (wrong vector length, negative/duplicate/out-of-range indices, 0-term Hamiltonians, function blocks), the cost "
             "configurations (cost_method x observable set/None x cost_func set/None), special parameter vectors (all zeros, equal / "
             "vanishing coordinates, multiples of pi/2, coordinates 1e-12 apart; Pauli-string multi-parameter blocks whose summed "
-            "Hamiltonian is degenerate there); every ordering of small Pauli-string sets (identity and constant terms included) as 3-4 terms of a "
+            "Hamiltonian is degenerate there); parameter containers of different types / dtypes (lists and tuples of ints, integer / float32 / float16 / "
+            "longdouble / object ndarrays, mixed lists, numpy scalars) and the jacobians requested by optimize_parameters(use_jac=True); every ordering of small Pauli-string sets (identity and constant terms included) as 3-4 terms of a "
             "ParameterizedHamiltonian; histories on one VQA object with one list/ndarray updated in place and public attributes "
             "(num_layers, cost_method, cost_observable, add_block) assigned between interleaved "
             "compute_jac / evaluate_parameters / get_final_state calls (each call = the call on a fresh object); every in-class case that returns is also "
@@ -717,17 +762,17 @@ class C19(PropertyCheck):
             if not close(ic, cost):
                 return "evaluate_parameters is not <psi|U^dag O U|psi> with U the ordered product of the block unitaries", cost, ic
         ents = [tuple(int(x) for x in e.split(":")) for e in model[3:].strip().split(";") if e]
-        dmats = [ev[2].full() for ev in log if ev[0] == "dmat"]
+        dmats = [ev[2].full() for ev in log if ev[0] == "dmat"] if log is not None else [None] * len(ents)
         if len(dmats) != len(ents) or len(jac) != len(ents):
             return "number of derivative matrices / jacobian entries", str(len(ents)), f"{len(dmats)}/{len(jac)}"
         for i, (k, blk, start, nn, term) in enumerate(ents):
             args = [angles[q] for q in range(start, start + nn)]
             dB = sem[blk].d_unitary(args, term)
-            if not close(dmats[i], dB):
+            if dmats[i] is not None and not close(dmats[i], dB):
                 return (f"entry {i}: get_unitary_derivative(block {blk}, angles[{start}:{start + nn}], term {term}) is not the derivative "
                         "of exp at -iH(p) in direction -iH_term (expFrechet, block-triangular formula) / U*(-iH)",
                         np.round(dB, 6).tolist(), np.round(dmats[i], 6).tolist())
-            if sem[blk].kind == "pham" and (i + len(ents) + start) % 7 == 0:
+            if dmats[i] is not None and sem[blk].kind == "pham" and (i + len(ents) + start) % 7 == 0:
                 dD = sem[blk].d_unitary(args, term, duhamel=True)
                 if not close(dmats[i], dD, 1e-7):
                     return (f"entry {i}: get_unitary_derivative is not the Duhamel integral int_0^1 e^(sA) E e^((1-s)A) ds",
@@ -853,6 +898,7 @@ class C19(PropertyCheck):
         self._compare_costcfg(ctx, res)
         self._special_pass(ctx, res)
         self._history_pass(ctx, res)
+        self._container_pass(ctx, res)
 
     def _compare_special(self, ctx, res, w, v, angles, tags=()):
         """compute_jac at a special parameter vector (zeros, equal, pi-multiples, 1e-12 apart; coordinates need not be
@@ -977,6 +1023,106 @@ class C19(PropertyCheck):
                                          "configuration: " + bad[0], wit)
                             break
 
+    def _container_pass(self, ctx, res):
+        """compute_jac / evaluate_parameters with the parameter vector in containers of different types and dtypes (lists and
+        tuples of Python ints, integer / float32 / float16 / longdouble / object ndarrays, mixed lists, numpy scalars): the
+        model only sees the VALUES, so every call must equal the numerical re-evaluation of the Lean semantics at these values
+        and the same call with a list of Python floats (1e-9); and the jacobians requested by optimize_parameters(use_jac=True)."""
+        rng = ctx.rng
+        n = 0
+        for rep in range(6 if ctx.thorough else 2):
+            for kind in CONTAINER_KINDS:
+                n += 1
+                w = pauli_witness(rng, rng.randint(0, 10 ** 4)) if n % 3 == 0 else self._random_witness(rng, maxblocks=3)
+                nfree = nfree_of(w)
+                if nfree == 0:
+                    continue
+                pattern = ["random", "ones", "halves", "arange"][n % 4]
+                vals = container_values(rng, kind, nfree, pattern)
+                fl = [float(a) for a in vals]
+                idx = None if n % 3 else sorted(rng.sample(range(nfree), rng.randint(1, nfree)))
+                enc, L = enc_blocks(w["blocks"]), w["layers"]
+                idxs = "default" if idx is None else ",".join(map(str, idx))
+                model, circ_line = ctx.driver("drv_vqa").run([f"jac layers={L} blocks={enc} nangles={nfree} idx={idxs} orig=0",
+                                                              f"circuit layers={L} blocks={enc} nangles={nfree}"])
+                v = build_vqa(w)
+                inp = {"nq": w["nq"], "layers": L, "blocks": enc, "seed": w.get("seed"), "container": kind, "values": fl, "idx": idx}
+                wit = dict(w, angles=fl, container=kind, indices=idx)
+                res.case(inp, nontrivial=True, tags=["container", "container=" + kind])
+                status, jac, log = instrumented_jac(v, make_container(kind, vals), idx)
+                ref = build_vqa(w)
+                try:
+                    rj = ref.compute_jac(list(fl), idx) if idx is not None else ref.compute_jac(list(fl))
+                    rstat = "ok"
+                except Exception as e:
+                    rj, rstat = None, classify_exc(e)
+                if status != rstat:
+                    res.disagree(inp, rstat, status, f"verdict of compute_jac for a {kind} container differs from a list of floats", wit)
+                    continue
+                if status != "ok":
+                    continue
+                jac = np.atleast_1d(np.asarray(jac))
+                if jac.shape != np.shape(rj) or not close(np.asarray(jac, dtype=float), rj):
+                    res.disagree(inp, np.round(rj, 9).tolist(), np.asarray(jac, dtype=float).round(9).tolist(),
+                                 f"compute_jac with the vector {fl} passed as {kind} differs from the same vector as a list of floats", wit)
+                    continue
+                if self.in_class(w) and model.startswith("ok"):
+                    bad = self._semantic(ctx, w, ref, fl, model, log, np.asarray(jac, dtype=float), circ_line)
+                    res.hist["semantic-evaluated"] = res.hist.get("semantic-evaluated", 0) + 1
+                    if bad:
+                        res.disagree(inp, bad[1], bad[2], f"matrix semantics, vector passed as {kind}: " + bad[0], wit)
+                        continue
+                try:
+                    e1 = float(np.real(v.evaluate_parameters(make_container(kind, vals))))
+                    e2 = float(np.real(ref.evaluate_parameters(list(fl))))
+                    if not close(e1, e2):
+                        res.disagree(inp, e2, e1, f"evaluate_parameters with a {kind} container differs from a list of floats", wit)
+                except Exception as e:
+                    res.disagree(inp, "ok", classify_exc(e), f"evaluate_parameters raised for a {kind} container", wit)
+        # the jacobians optimize_parameters asks for (initial='ones' builds a list of Python ints; layer_by_layer uses subsets)
+        small = [{"nq": 1, "layers": 1, "blocks": [{"kind": "p", "nterms": 2, "initial": False, "paulis": ["X", "Z"]}], "seed": 11},
+                 {"nq": 1, "layers": 2, "blocks": [{"kind": "h", "nterms": 0, "initial": True}, {"kind": "h", "nterms": 0, "initial": False}],
+                  "seed": 12},
+                 {"nq": 2, "layers": 2, "blocks": [{"kind": "n", "nterms": 0, "initial": True},
+                                                   {"kind": "p", "nterms": 2, "initial": False, "paulis": ["ZI", "IX"]}], "seed": 13}]
+        for k, w in enumerate(small if ctx.thorough else small[:2]):
+            for lbl in (False, True):
+                v = build_vqa(w)
+                calls = []
+                orig = v.compute_jac
+
+                def rec(angles, indices_to_compute=None, _o=orig, _v=v):
+                    out = _o(angles, indices_to_compute) if indices_to_compute is not None else _o(angles)
+                    calls.append(([float(a) for a in angles], None if indices_to_compute is None else list(indices_to_compute),
+                                  _v.num_layers, np.array(out, dtype=float)))
+                    return out
+                v.compute_jac = rec
+                inp = {"what": "optimize_parameters(initial='ones', use_jac=True)", "layer_by_layer": lbl, "blocks": enc_blocks(w["blocks"]),
+                       "layers": w["layers"], "nq": w["nq"]}
+                res.case(inp, nontrivial=True, tags=["container", "optimize_parameters"])
+                import contextlib, io
+                try:
+                    with contextlib.redirect_stdout(io.StringIO()):
+                        v.optimize_parameters(initial="ones", method="BFGS", use_jac=True, layer_by_layer=lbl)
+                except Exception as e:
+                    res.disagree(inp, "ok", classify_exc(e), "optimize_parameters(initial='ones', use_jac=True) raised", dict(w))
+                    continue
+                finally:
+                    del v.compute_jac
+                for fl, idx, Lc, out in calls[:3] + calls[-2:]:
+                    cw = dict(w, layers=Lc)
+                    enc = enc_blocks(cw["blocks"])
+                    idxs = "default" if idx is None else ("none" if not idx else ",".join(map(str, idx)))
+                    model, circ_line = ctx.driver("drv_vqa").run([f"jac layers={Lc} blocks={enc} nangles={len(fl)} idx={idxs} orig=0",
+                                                                  f"circuit layers={Lc} blocks={enc} nangles={len(fl)}"])
+                    if not model.startswith("ok"):
+                        res.disagree(inp, model, "ok", "optimize_parameters obtained a jacobian where the model raises", dict(cw, angles=fl))
+                        break
+                    bad = self._semantic(ctx, cw, build_vqa(cw), fl, model, None, out, circ_line)
+                    if bad:
+                        res.disagree(inp, bad[1], bad[2], "jacobian handed to the optimiser: " + bad[0], dict(cw, angles=fl, indices=idx))
+                        break
+
     def _compare_costcfg(self, ctx, res):
         """cost_method x cost_observable set/None x cost_func set/None: compute_jac ignores cost_method and cost_func,
         raises NotImplementedError without observable when an entry is requested; which quantity
@@ -1061,7 +1207,8 @@ class C19(PropertyCheck):
         idx = w.get("indices")
         want = list(range(nfree)) if idx is None else sorted({i for i in idx if 0 <= i < nfree})
         try:
-            jac = v.compute_jac(list(angles), idx) if idx is not None else v.compute_jac(list(angles))
+            arg = make_container(w["container"], angles) if w.get("container") else list(angles)
+            jac = v.compute_jac(arg, idx) if idx is not None else v.compute_jac(arg)
         except Exception as e:
             return True, f"compute_jac raised {type(e).__name__}: {e}"
         jac = np.atleast_1d(np.asarray(jac, dtype=float))
@@ -1073,7 +1220,8 @@ class C19(PropertyCheck):
         tol = 1e-6 + 1e-5 * np.abs(fd)
         if np.any(err > tol):
             j = int(np.argmax(err - tol))
-            return True, f"entry {j} (parameter {want[j]}): analytic {jac[j]:.9g} vs finite difference {fd[j]:.9g}"
+            how = f" (vector {[float(a) for a in angles]} passed as {w['container']})" if w.get("container") else ""
+            return True, f"entry {j} (parameter {want[j]}): analytic {jac[j]:.9g} vs finite difference {fd[j]:.9g}{how}"
         return False, f"{len(want)} entries agree with central differences"
 
     def _replay_history(self, w):
@@ -1134,6 +1282,20 @@ class C19(PropertyCheck):
             w["angles"] = [float(a) for a in rng.choice(vecs)]
         return w
 
+    def _container_witnesses(self, rng, count):
+        """parameter vectors with integer / half-integer values passed as lists/tuples of ints, integer and low-precision
+        ndarrays, numpy scalars"""
+        n = 0
+        while n < count:
+            w = pauli_witness(rng, rng.randint(0, 10 ** 4)) if n % 3 == 0 else self._random_witness(rng, maxblocks=3)
+            nfree = nfree_of(w)
+            n += 1
+            if nfree == 0:
+                continue
+            kind = CONTAINER_KINDS[n % len(CONTAINER_KINDS)]
+            vals = container_values(rng, kind, nfree, ["random", "ones", "halves", "arange"][n % 4])
+            yield dict(w, angles=[float(a) for a in vals], container=kind)
+
     def _special_witnesses(self, rng, count):
         """systematic: Pauli-string multi-parameter blocks at the origin and at vectors with vanishing coordinates"""
         for n in range(count):
@@ -1149,6 +1311,12 @@ class C19(PropertyCheck):
             if f:
                 yield w, d
             if time.time() - t0 > budget_s / 4:
+                break
+        for w in self._container_witnesses(ctx.rng, 26):
+            f, d = self.oracle_replay(ctx, w)
+            if f:
+                yield w, d
+            if time.time() - t0 > budget_s / 3:
                 break
         for w in self._commuting_sample(ctx.rng, 60):
             f, d = self.oracle_replay(ctx, w)
@@ -1180,6 +1348,10 @@ class C19(PropertyCheck):
                 yield w, d
 
     def oracle_always(self, ctx):
+        for w in self._container_witnesses(ctx.rng, 39 if ctx.thorough else 13):
+            f, d = self.oracle_replay(ctx, w)
+            if f:
+                yield w, d
         for w in self._commuting_sample(ctx.rng, 40 if ctx.thorough else 10):
             f, d = self.oracle_replay(ctx, w)
             if f:
